@@ -159,10 +159,18 @@ def run(tier):
     gen = chains(tier, rnd)
     cases, meta = [], []
     for g in gen:
-        for prov in ("none", "dummy"):
+        for prov in ("none", "dummy", "dummy_stale"):
             c = {"sql": g["sql"], "dialect": "ansi", "want": []}
             if prov == "dummy":
                 c.update({"metadata": MD, "provider": "dummy"})
+            if prov == "dummy_stale":
+                # the provider's catalog still holds outdated definitions of the tables this script (re)builds
+                # (only for a table the script creates with CREATE TABLE AS / CREATE VIEW: an INSERT without column list into a table the provider
+                # knows is legitimately named by the catalog's columns, C13)
+                if g["shape"] in ("same_unresolved_name_two_scopes", "rewrite") or "db.m1" not in g["tables"]:
+                    continue
+                c["sql"] = c["sql"].replace("insert into db.m1 select x.", "create table db.m1 as select x.", 1)
+                c.update({"metadata": dict(MD, **{"db.m1": ["old1", "old2", "c1"]}), "provider": "dummy"})
             cases.append(c)
             meta.append(("chain", g, prov))
     for r in corpus.suite():
@@ -191,7 +199,7 @@ def run(tier):
         run_.case(evidence.sha((c["sql"], prov, c["dialect"])), nontrivial=consumed,
                   sample={"script": c["sql"], "provider": prov, "pairs": r["column_pairs"][:6]} if consumed and len(run_.samples) < 5 and kind == "chain" else None)
         # (a) composition
-        exp = compose(ps, c.get("metadata") if prov == "dummy" else None)
+        exp = compose(ps, c.get("metadata") if prov.startswith("dummy") else None)
         obs = sorted(map(list, {tuple(p) for p in r["column_pairs"]}))
         run_.observe("compositions_compared")
         run_.observe("chained_pairs_seen", sum(1 for p in r["column_paths"] if len(p) > 2))
@@ -203,7 +211,7 @@ def run(tier):
             continue
         shapes[g["shape"]] = shapes.get(g["shape"], 0) + 1
         # (b) session knowledge (provider in use)
-        if prov == "dummy":
+        if prov in ("dummy", "dummy_stale"):
             final = [p for p in obs if p[1].startswith(g["last"] + ".")]
             if g["expected_final_pairs"] is not None and final != g["expected_final_pairs"]:
                 run_.judge(b, "chain_end_to_end_pairs_differ_from_model", {"expected": g["expected_final_pairs"], "observed": final, "tables": g["tables"]},
